@@ -260,7 +260,12 @@ class LabelsInSessions(Stage):
                                  args=[['str', d.choice(['b', 'B', 'c', 'b', 'editor'])]]))
         for m in specs:
             while labels and d.chance(0.3):
-                k = d.weighted([(5, 'select'), (3, 'all'), (4, 'filter-label'), (2, 'break-label'), (2, 'reset'), (3, 'list-label'), (2, 'select-other')])
+                k = d.weighted([(5, 'select'), (3, 'all'), (4, 'filter-label'), (2, 'break-label'), (2, 'reset'), (3, 'list-label'), (2, 'select-other'), (2, 'filter-excl'), (2, 'filter-pair')])
+                if k in ('filter-excl', 'filter-pair'):
+                    # labels as exclusions and in comma lists given to filter / breakpoint (what later listings select is unaffected)
+                    l1, l2 = d.choice(labels), d.choice(labels)
+                    items.append(['cmd', d.choice(['filter ', 'breakpoint ']) + ('%s ! %s' if k == 'filter-excl' else '%s, %s') % (l1, l2), 'free'])
+                    continue
                 if k == 'select-other':
                     # lower case, an app id, or a name that denotes nothing (refused: the selection stays as it is)
                     items.append(['cmd', 'connection ' + d.choice(['b', 'c', 'a', 'Q', 'ZZ', 'editor', 'nope'])])
@@ -276,10 +281,17 @@ class LabelsInSessions(Stage):
             W.step(m)
             refresh()
         # labels that filter / breakpoint commands were given come back on their own
-        used = [it[1].split(' ', 1)[1] for it in items if it[0] == 'cmd' and it[1].startswith(('filter ', 'breakpoint ')) and ':' in it[1]]
+        used = [it[1].split(' ', 1)[1] for it in items if it[0] == 'cmd' and len(it) == 2 and it[1].startswith(('filter ', 'breakpoint ')) and ':' in it[1]]
         items.append(['cmd', 'connection all'])
         for _ in range(d.int(2, 6)):
             items.append(['cmd', 'list ' + (d.choice(used) if used and d.chance(0.5) else d.choice(labels)), 'check'])
+        for _ in range(d.int(0, 2)):
+            # two labels of different connections in one list: what either selects, in arrival order
+            l1 = d.choice(labels)
+            others = [l for l in labels if l.split(':')[0] != l1.split(':')[0]]
+            if others:
+                l2 = d.choice(others)
+                items.append(['cmd', d.choice(['list %s, %s', 'list %s,%s', 'l %s, %s ~ 500']) % (l1, l2), 'check-pair', [l1, l2]])
         if d.chance(0.6):
             # the label as the (only) filter: a plain `list` then shows what the label selects, whatever the breakpoint matcher is
             lab = d.choice(labels)
@@ -296,6 +308,7 @@ class LabelsInSessions(Stage):
         app_ids = {}
         nline = 0
         checked = 0
+        arrivals = []      # (connection name, index among that connection's messages) per line, in arrival order
         for seg in segs:
             it = s.io.items[seg.index] if seg.index < len(s.io.items) else None
             if seg.kind == 'line':
@@ -304,8 +317,34 @@ class LabelsInSessions(Stage):
                 if sp['name'] == 'set_app_id' and sp['args'] and sp['args'][0][0] == 'str' and sp['args'][0][1]:
                     app_ids[rec['conn'].name] = sp['args'][0][1]
                 nline += 1
+                arrivals.append((rec['conn'].name, len(rec['conn'].msgs) - 1))
                 continue
             if seg.kind != 'cmd':
+                continue
+            if len(it) > 3 and it[2] == 'check-pair':
+                import re as _re
+                wanted = {}
+                for form in it[3]:
+                    cname, _, rest = form.partition(':')
+                    mc = next(c for c in W.conns.values() if c.name == cname)
+                    mm = _re.fullmatch(r'(\d+)([a-z]+)', rest.strip()) if rest.strip() else None
+                    wanted[cname] = (mc, mc.db[int(mm.group(1))][kth_index(mm.group(2))] if mm else None)
+                allm = s.ctl.all_messages
+                exp = []
+                for g, (cname, k) in enumerate(arrivals):
+                    if cname in wanted and g < len(allm) and (sel is None or sel == cname):
+                        mc, mo = wanted[cname]
+                        if mo is None or mc.mentions(mc.msgs[k], mo):
+                            exp.append(allm[g])
+                got = [l for l in seg.out_lines() if session.MSG_LINE.match(l)]
+                want = session.render_shown(exp)
+                res.evals += len(arrivals)
+                checked += 1
+                if got != want:
+                    extra = [l for l in got if l not in want]
+                    missing = [l for l in want if l not in got]
+                    res.bad('session:list-two-labels-%s' % ('selects-unrelated' if extra else 'misses-messages'),
+                            '`%s` printed %d lines, expected %d; extra %r missing %r' % (seg.text, len(got), len(want), extra[:2], missing[:2]))
                 continue
             if seg.text.startswith('connection '):
                 a = seg.text.split(' ', 1)[1]
